@@ -263,6 +263,10 @@ func admissible(op string, x []float64, par float64, k int) bool {
 		return a > 0.05 && a < 30
 	case "Pow":
 		y := x[1]
+		if a == 0 {
+			// base exactly 0: first and second derivative are finite for exponents >= 2 (constant exponent only, see the generator)
+			return y >= 2 && y <= 4
+		}
 		return a > 1e-3 && math.Abs(y) <= 4 && math.Abs(y*math.Log(a)) < 30
 	case "LogAdd":
 		return math.Abs(a) < 50 && math.Abs(x[1]) < 50
